@@ -36,6 +36,9 @@ Proof. exact psound_rules_buildable. Qed.
     a rule appearing here that no known finding lists is reported as a new violation *)
 Theorem remaining_plan_rules_are_refuted : Forall prefuted prefuted_rules.
 Proof. exact prefuted_rules_ok. Qed.
+(** unsound as they are, these rewrites too keep a buildable plan buildable (what C17 needs of every rewrite) *)
+Theorem refuted_plan_rewrites_keep_plans_buildable : Forall pbuildable prefuted_rules.
+Proof. exact prefuted_rules_buildable. Qed.
 (** the meaning of any pattern under a well-formed binding is a well-formed relation / expression *)
 Theorem plan_meaning_is_well_formed : forall env, env_ok env -> forall e s, ppev env e = Some s -> wf_sem s.
 Proof. exact ppev_wf. Qed.
@@ -45,4 +48,5 @@ Print Assumptions remaining_expression_rules_are_refuted.
 Print Assumptions modelled_plan_rules_are_sound.
 Print Assumptions proved_plan_rewrites_keep_plans_buildable.
 Print Assumptions remaining_plan_rules_are_refuted.
+Print Assumptions refuted_plan_rewrites_keep_plans_buildable.
 Print Assumptions plan_meaning_is_well_formed.
